@@ -451,3 +451,13 @@ package q
 // token's Value IS a string that pattern matched is the tokenizer's loop (by
 // construction, not machine-checked).
 //@ rxpwithin string-literal-tokens-are-quoted props C15 kind TokenString within: ^"(?s:.*)"$
+
+// C16: an accessor applied to a list is the accessor applied to EVERY element,
+// in order, missing (nil) elements included - the API answers for nil receivers
+// too ("Unknown" for a missing sex), so no element may be skipped.
+//@ func AccessorExpr.Evaluate
+//@   props C16
+//@   ghost nRec int = 0
+//@   oncall AccessorExpr.Evaluate check this-element-with-the-same-accessor: arg0 == e && arg1 == engine
+//@   oncall AccessorExpr.Evaluate do nRec = nRec + 1
+//@   loop 1 iter every-element-evaluated: nRec == old(nRec) + 1
